@@ -248,3 +248,9 @@ def run(ctx):
         names = [M.callee_str(t["f"]) for _, t in cf.calls()]
         okc = all(any(w in n for n in names) for w in want) and len(names) == len(want)
         ctx.ob("R02.5", "%s=whole-input" % cname.split("::")[-2], okc, cf.loc(0), "the input is converted whole (calls %s)" % [n.split("::")[-1] for n in names])
+
+
+def run_thorough(ctx):
+    # the cfg(windows) sibling implementation, analysed on the windows-msvc build
+    import winrules
+    winrules.c02_routing(ctx)
